@@ -419,6 +419,11 @@ def scenarios(ctx, tier):
             us = rng.choice([1, 500, 1000, 4999, 5000, 10000, 25000, 100000])
             sc.append("a %d %d %d 0" % (rng.randint(1, 300), K_USLEEP, us))
             sc.append("a2 %d %d" % (rng.randint(2, 300), us))
+    # (e) tens of thousands of sleepers sharing ONE wake tick ("however many fibers sleep concurrently or share a
+    # wake-up tick"): more than the unit suite ever has asleep at once (10000), all due in one pass of the wake loop
+    sc.append("e 1 20000 1000")
+    if tier != "quick":
+        sc += ["e 2 20000 1000", "e 1 33000 2000", "e 1 50000 1000", "e 3 70000 3000"]
     # (d) durations through every entry point; the last one is the 32-bit wrap [F-C09c]
     dl = " ".join("%d %d %d" % t for t in DURATIONS_D)
     sc.append("d 1 2600 " + dl)
@@ -452,7 +457,7 @@ def make_rt_monitor(flags):
         return (us // 10 ** 6) * 1000 + (us % 10 ** 6) // 1000 + 2
 
     def mon(sc, out, rc):
-        S, P, F, end, crash = [], [], {}, None, None
+        S, P, F, end, crash, E = [], [], {}, None, None, None
         for line in out.splitlines():
             w = line.split()
             if not w:
@@ -463,6 +468,8 @@ def make_rt_monitor(flags):
                 P.append([int(x) for x in w[1:]])
             elif w[0] == "F" and len(w) == 4:
                 F[int(w[1])] = (int(w[2]), int(w[3]))
+            elif w[0] == "E" and len(w) == 10:
+                E = [int(x) for x in w[1:]]
             elif w[0] == "END":
                 end = int(w[1])
             elif w[0] == "CRASH":
@@ -485,11 +492,21 @@ def make_rt_monitor(flags):
         for i, (nsl, nsch) in F.items():
             if nsch > done.get(i, 0) + sum(1 for p in P if p[0] == i):
                 why.append("TWICE: fiber %d was scheduled %d times by the event layer for %d sleeps" % (i, nsch, nsl))
+        if E:
+            n, ret, pending, twice, mn, mx, first, us, now = E
+            if pending:
+                why.append("LOST: %d of %d fibers that called usleep(%d) while sharing one wake tick are still asleep at tick "
+                           "%d (e.g. sleeper #%d); %d returned after at most %d ticks" % (pending, n, us, now, first, ret, mx))
+            if twice:
+                why.append("TWICE: %d of %d sleepers returned from one usleep more than once" % (twice, n))
+            if ret and mn < need(K_USLEEP, us, 0):
+                why.append("EARLY: a sleeper of the %d sharing one wake tick returned from usleep(%d) after %d expirations, the "
+                           "request needs >= %d" % (n, us, mn, need(K_USLEEP, us, 0)))
         if crash:
             why.append(crash.strip())
         if end is None and not crash:
             why.append("scenario did not finish (rc=%d): %s" % (rc, out[-200:].replace("\n", " | ")))
-        if end == 3 and not P:
+        if end == 3 and not P and not (E and E[2]):
             why.append("tick budget exhausted with no sleeper pending")
         return "; ".join(why[:4]) if why else None
     return mon
@@ -509,6 +526,7 @@ def run_rt(ctx, exe, flags, tier):
     per = {}
     for sc, (rc, out) in zip(scs, outs):
         nsleeps += sum(1 for l in out.splitlines() if l.startswith("S "))
+        nsleeps += sum(int(l.split()[2]) for l in out.splitlines() if l.startswith("E ") and len(l.split()) == 10)
         why = mon(sc, out, rc)
         fam = sc.split()[0]
         st = per.setdefault(fam, {"runs": 0, "violations": 0})
